@@ -153,7 +153,11 @@ Qed.
 (* ---- structured captions (the shape readers produce and the statement talks about): plain words / breaks, and
         style spans (with or without a layout of their own) around words / breaks; no nesting ------------------- *)
 Inductive gitem := GWord (w : Z) | GBreak.
-Inductive gseg := GPlain (i : gitem) | GSpan (styled : bool) (lay : option layout) (body : list gitem).
+(* GNest: a style span (st, lay) holding plain items `pre`, ONE inner style span (ist, ilay, ibody), plain items `post` *)
+Inductive gseg :=
+| GPlain (i : gitem)
+| GSpan (styled : bool) (lay : option layout) (body : list gitem)
+| GNest (st : bool) (lay : option layout) (pre : list gitem) (ist : bool) (ilay : option layout) (ibody post : list gitem).
 Record gcap := mkGcap { gc_layout : option layout; gc_segs : list gseg }.
 Record glang := mkGlang { gl_layout : option layout; gl_caps : list gcap }.
 
@@ -163,6 +167,20 @@ Definition seg_nodes (s : gseg) : list dnode :=
   match s with
   | GPlain i => [item_node None i]
   | GSpan st lay body => mkD 2 true st lay 0 :: map (item_node lay) body ++ [mkD 2 false st lay 0]
+  | GNest st lay pre ist ilay ibody post =>
+      mkD 2 true st lay 0 :: map (item_node lay) pre ++ mkD 2 true ist ilay 0 :: map (item_node ilay) ibody
+      ++ mkD 2 false ist ilay 0 :: map (item_node lay) post ++ [mkD 2 false st lay 0]
+  end.
+Definition seg_layouts (s : gseg) : list (option layout) :=
+  match s with GPlain _ => [] | GSpan _ lay _ => [lay] | GNest _ lay _ _ ilay _ _ => [lay; ilay] end.
+(* the domain on which the writer's flattening of nested spans (an inner span start closes the outer span; any style end
+   closes whatever is open) loses no layout: the outer span carries no layout, or nothing follows the inner span inside the
+   outer one and the inner span has a layout of its own or is not written as a <span> at all *)
+Definition seg_harmless (s : gseg) : Prop :=
+  match s with
+  | GNest st lay pre ist ilay ibody post =>
+      opt_layout_truthy lay = false \/ (post = [] /\ (opt_layout_truthy ilay = true \/ ist = false))
+  | _ => True
   end.
 Definition to_dcap (c : gcap) : dcap := mkDcap (gc_layout c) (flat_map seg_nodes (gc_segs c)).
 Definition to_dlang (l : glang) : dlang := mkDlang (gl_layout l) (map to_dcap (gl_caps l)).
@@ -176,6 +194,17 @@ Definition seg_items (reg : option layout -> region_id) (s : gseg) : list xitem 
       if st || opt_layout_truthy lay
       then [XSpan (if opt_layout_truthy lay then Some (reg lay) else None) (map item_x body)]
       else map item_x body
+  | GNest st lay pre ist ilay ibody post =>
+      let ro := if opt_layout_truthy lay then Some (reg lay) else None in
+      let ri := if opt_layout_truthy ilay then Some (reg ilay) else None in
+      if st || opt_layout_truthy lay then
+        if ist || opt_layout_truthy ilay
+        then XSpan ro (map item_x pre) :: XSpan ri (map item_x ibody) :: map item_x post   (* the outer span is closed early *)
+        else XSpan ro (map item_x pre ++ map item_x ibody) :: map item_x post              (* the inner END closes the outer span *)
+      else
+        if ist || opt_layout_truthy ilay
+        then map item_x pre ++ XSpan ri (map item_x ibody) :: map item_x post
+        else map item_x pre ++ map item_x ibody ++ map item_x post
   end.
 
 Lemma write_body_open : forall reg lay body rest r acc out,
@@ -196,12 +225,35 @@ Proof.
     rewrite <- app_assoc; reflexivity.
 Qed.
 
+Lemma nest_app : forall (a b c d : dnode) l1 l2 l3 tl,
+  (a :: l1 ++ b :: l2 ++ c :: l3 ++ [d]) ++ tl = a :: l1 ++ b :: l2 ++ c :: l3 ++ d :: tl.
+Proof. intros. cbn [app]. rewrite <- app_assoc. cbn [app]. rewrite <- app_assoc. cbn [app]. rewrite <- app_assoc. reflexivity. Qed.
+
 Lemma write_segs : forall reg segs out,
   write_nodes reg (flat_map seg_nodes segs) None out = rev out ++ flat_map (seg_items reg) segs.
 Proof.
   induction segs as [|s segs IH]; intros out.
   - cbn [flat_map write_nodes close_span]. rewrite app_nil_r. reflexivity.
-  - cbn [flat_map]. destruct s as [i|st lay body].
+  - cbn [flat_map]. destruct s as [i|st lay body|st lay pre ist ilay ibody post].
+    3: { cbn [seg_nodes]. rewrite nest_app.
+         cbn [write_nodes d_kind d_start d_styled d_layout Z.eqb Pos.eqb close_span]. cbn [seg_items].
+         destruct (st || opt_layout_truthy lay) eqn:A; destruct (ist || opt_layout_truthy ilay) eqn:B.
+         - rewrite write_body_open. cbn [write_nodes d_kind d_start d_styled d_layout Z.eqb Pos.eqb close_span]. rewrite B.
+           rewrite write_body_open. cbn [write_nodes d_kind d_start d_styled d_layout Z.eqb Pos.eqb close_span].
+           rewrite write_body_closed. cbn [write_nodes d_kind d_start d_styled d_layout Z.eqb Pos.eqb close_span].
+           rewrite IH. rewrite ?app_nil_r, ?rev_app_distr, ?rev_involutive. cbn [rev app]. rewrite <- ?app_assoc. cbn [app]. rewrite ?rev_app_distr, ?rev_involutive, <- ?app_assoc. cbn [app]. reflexivity.
+         - rewrite write_body_open. cbn [write_nodes d_kind d_start d_styled d_layout Z.eqb Pos.eqb close_span]. rewrite B.
+           rewrite write_body_open. cbn [write_nodes d_kind d_start d_styled d_layout Z.eqb Pos.eqb close_span].
+           rewrite write_body_closed. cbn [write_nodes d_kind d_start d_styled d_layout Z.eqb Pos.eqb close_span].
+           rewrite IH. rewrite ?app_nil_r, ?rev_app_distr, ?rev_involutive. cbn [rev app]. rewrite <- ?app_assoc. cbn [app]. rewrite ?rev_app_distr, ?rev_involutive, <- ?app_assoc. cbn [app]. reflexivity.
+         - rewrite write_body_closed. cbn [write_nodes d_kind d_start d_styled d_layout Z.eqb Pos.eqb close_span]. rewrite B.
+           rewrite write_body_open. cbn [write_nodes d_kind d_start d_styled d_layout Z.eqb Pos.eqb close_span].
+           rewrite write_body_closed. cbn [write_nodes d_kind d_start d_styled d_layout Z.eqb Pos.eqb close_span].
+           rewrite IH. rewrite ?app_nil_r, ?rev_app_distr, ?rev_involutive. cbn [rev app]. rewrite <- ?app_assoc. cbn [app]. rewrite ?rev_app_distr, ?rev_involutive, <- ?app_assoc. cbn [app]. reflexivity.
+         - rewrite write_body_closed. cbn [write_nodes d_kind d_start d_styled d_layout Z.eqb Pos.eqb close_span]. rewrite B.
+           rewrite write_body_closed. cbn [write_nodes d_kind d_start d_styled d_layout Z.eqb Pos.eqb close_span].
+           rewrite write_body_closed. cbn [write_nodes d_kind d_start d_styled d_layout Z.eqb Pos.eqb close_span].
+           rewrite IH. rewrite ?app_nil_r, ?rev_app_distr, ?rev_involutive. cbn [rev app]. rewrite <- ?app_assoc. cbn [app]. rewrite ?rev_app_distr, ?rev_involutive, <- ?app_assoc. cbn [app]. reflexivity. }
     + destruct i; cbn [seg_nodes item_node app write_nodes d_kind d_word Z.eqb Pos.eqb]; rewrite IH; cbn [rev seg_items item_x app];
         rewrite <- app_assoc; reflexivity.
     + cbn [seg_nodes app write_nodes d_kind d_start d_styled d_layout Z.eqb Pos.eqb close_span]. rewrite <- app_assoc.
@@ -243,6 +295,11 @@ Definition seg_expected (lang cap : option layout) (s : gseg) : list (Z * layout
   match s with
   | GPlain i => item_words (expected_effective lang cap None) i
   | GSpan _ lay body => flat_map (item_words (expected_effective lang cap lay)) body
+  | GNest _ lay pre _ ilay ibody post =>
+      (* node level: the nearest enclosing span that has a layout *)
+      flat_map (item_words (expected_effective lang cap lay)) pre
+      ++ flat_map (item_words (expected_effective lang cap (if opt_layout_truthy ilay then ilay else lay))) ibody
+      ++ flat_map (item_words (expected_effective lang cap lay)) post
   end.
 
 Definition words_rel (a b : list (Z * layout)) : Prop :=
@@ -280,6 +337,19 @@ Proof. intros l c n T. unfold dfxp_choice. rewrite T. reflexivity. Qed.
 Lemma expected_falsy_node : forall l c n, opt_layout_truthy n = false -> expected_effective l c n = expected_effective l c None.
 Proof. intros l c n T. rewrite <- !exp_of_choice, (choice_falsy_node _ _ _ T). reflexivity. Qed.
 
+Lemma res_map_app : forall {A B} (f : A -> result B) l1 l2 w1 w2,
+  res_map f l1 = Ok w1 -> res_map f l2 = Ok w2 -> res_map f (l1 ++ l2) = Ok (w1 ++ w2).
+Proof.
+  intros A B f. induction l1 as [|x t IH]; intros l2 w1 w2 E1 E2.
+  - cbn [res_map] in E1. inversion E1; subst. exact E2.
+  - cbn [app res_map] in *. destruct (f x) as [a|]; [|discriminate]. cbn [bind] in *.
+    destruct (res_map f t) as [b|] eqn:Eb; [|discriminate]. cbn [bind] in E1. inversion E1; subst.
+    rewrite (IH l2 b w2 eq_refl E2). reflexivity.
+Qed.
+
+Lemma concat_item_words : forall r body, concat (map (item_words r) body) = flat_map (item_words r) body.
+Proof. intros. rewrite flat_map_concat_map. reflexivity. Qed.
+
 Section OneDocument.
   Variable ls : list (option layout).
   Hypothesis NN : Forall opt_nonneg ls.
@@ -305,17 +375,83 @@ Section OneDocument.
 
   (* one segment, read inside <p region=rp> inside <div region=rd>, the p having layout rlay *)
   Lemma read_seg : forall lang cap rp rd rlay s,
-    In lang ls -> In cap ls -> (forall st lay body, s = GSpan st lay body -> In lay ls) ->
+    In lang ls -> In cap ls -> (forall l, In l (seg_layouts s) -> In l ls) -> seg_harmless s ->
     rp = region_lookup m (dfxp_choice None lang cap None) ->
     resolve regs (Some rp) = Ok rlay -> layout_equiv rlay (expected_effective lang cap None) ->
     exists ws, res_map (read_item regs [Some rp; Some rd] rlay) (seg_items (region_lookup m) s) = Ok ws
                /\ words_rel (concat ws) (seg_expected lang cap s).
   Proof.
-    intros lang cap rp rd rlay s Hl Hc Hs Erp Hr Hq. destruct s as [i|st lay body].
+    intros lang cap rp rd rlay s Hl Hc Hs Hh Erp Hr Hq. destruct s as [i|st lay body|st lay pre ist ilay ibody post].
+    3: { (* nested spans, flattened by the writer *)
+      assert (Hlay : In lay ls) by (apply Hs; left; reflexivity).
+      assert (Hilay : In ilay ls) by (apply Hs; right; left; reflexivity).
+      (* reading a written span with region of `x` (truthy) / without region (falsy: nearest ancestor = the <p>) *)
+      assert (Span : forall x body, In x ls ->
+                exists w, read_item regs [Some rp; Some rd] rlay
+                            (XSpan (if opt_layout_truthy x then Some (region_lookup m x) else None) (map item_x body)) = Ok w
+                          /\ words_rel w (flat_map (item_words (expected_effective lang cap x)) body)).
+      { intros x body Hx. rewrite read_item_span_unfold. destruct (opt_layout_truthy x) eqn:T.
+        - rewrite determine_own. destruct (resolve_in x (or_intror Hx)) as (r & Er & Qr). rewrite Er. cbn [bind].
+          rewrite read_flat_body. cbn [bind]. eexists. split; [reflexivity|]. apply words_rel_items.
+          destruct x as [e|]; [|discriminate]. cbn [opt_layout_truthy] in T.
+          rewrite <- exp_of_choice, (choice_truthy_node _ _ _ T). exact Qr.
+        - rewrite span_resolves_to_p, Hr. cbn [bind]. rewrite read_flat_body. cbn [bind]. eexists. split; [reflexivity|].
+          rewrite (expected_falsy_node _ _ _ T). apply words_rel_items. exact Hq. }
+      assert (Bare : forall body, res_map (read_item regs [Some rp; Some rd] rlay) (map item_x body) = Ok (map (item_words rlay) body)
+                                  /\ words_rel (concat (map (item_words rlay) body)) (flat_map (item_words (expected_effective lang cap None)) body)).
+      { intros body. split; [apply read_flat_body|apply words_rel_items; exact Hq]. }
+      cbn [seg_items seg_expected seg_harmless] in *.
+      destruct (opt_layout_truthy lay) eqn:TL.
+      - (* the outer span has a layout: nothing follows the inner span, which has its own layout or is not written *)
+        destruct Hh as [Hh|(-> & Hi)]; [discriminate|]. rewrite orb_true_r. cbn [map flat_map]. rewrite !app_nil_r.
+        destruct Hi as [TI| ->].
+        + rewrite TI, orb_true_r.
+          destruct (Span lay pre Hlay) as (w1 & E1 & Q1). destruct (Span ilay ibody Hilay) as (w2 & E2 & Q2).
+          rewrite TL in E1. rewrite TI in E2. cbn [res_map]. rewrite E1. cbn [bind]. rewrite E2. cbn [bind].
+          eexists. split; [reflexivity|]. cbn [concat]. rewrite app_nil_r. apply words_rel_app; assumption.
+        + cbn [orb]. destruct (opt_layout_truthy ilay) eqn:TI.
+          * destruct (Span lay pre Hlay) as (w1 & E1 & Q1). destruct (Span ilay ibody Hilay) as (w2 & E2 & Q2).
+            rewrite TL in E1. rewrite TI in E2. cbn [res_map]. rewrite E1. cbn [bind]. rewrite E2. cbn [bind].
+            eexists. split; [reflexivity|]. cbn [concat]. rewrite app_nil_r. apply words_rel_app; assumption.
+          * (* the inner span is not written: its words sit in the outer span *)
+            destruct (Span lay (pre ++ ibody) Hlay) as (w1 & E1 & Q1). rewrite TL, map_app in E1.
+            cbn [res_map]. rewrite E1. cbn [bind]. eexists. split; [reflexivity|]. cbn [concat]. rewrite app_nil_r.
+            rewrite flat_map_app in Q1. exact Q1.
+      - (* the outer span has no layout: every word not in a span with its own region resolves to the <p> *)
+        rewrite orb_false_r. rewrite (expected_falsy_node _ _ _ TL).
+        assert (EI : expected_effective lang cap (if opt_layout_truthy ilay then ilay else lay) = expected_effective lang cap ilay).
+        { destruct (opt_layout_truthy ilay) eqn:TI; [reflexivity|].
+          rewrite (expected_falsy_node _ _ _ TL), (expected_falsy_node _ _ _ TI). reflexivity. }
+        rewrite EI.
+        destruct (Span lay pre Hlay) as (w1 & E1 & Q1). rewrite TL in E1. rewrite (expected_falsy_node _ _ _ TL) in Q1.
+        destruct (Span ilay ibody Hilay) as (w2 & E2 & Q2).
+        destruct (Bare pre) as (Bp & Qp). destruct (Bare ibody) as (Bi & Qi). destruct (Bare post) as (Bo & Qo).
+        destruct st; cbn [orb].
+        + destruct (ist || opt_layout_truthy ilay) eqn:B.
+          * cbn [res_map]. rewrite E1. cbn [bind].
+            assert (E2' : read_item regs [Some rp; Some rd] rlay
+                     (XSpan (if opt_layout_truthy ilay then Some (region_lookup m ilay) else None) (map item_x ibody)) = Ok w2) by exact E2.
+            rewrite E2'. cbn [bind]. rewrite Bo. cbn [bind]. eexists. split; [reflexivity|]. cbn [concat].
+            apply words_rel_app; [exact Q1|]. apply words_rel_app; [exact Q2|exact Qo].
+          * apply orb_false_iff in B. destruct B as [-> TI].
+            destruct (Span lay (pre ++ ibody) Hlay) as (w3 & E3 & Q3). rewrite TL, map_app in E3.
+            rewrite (expected_falsy_node _ _ _ TL), flat_map_app in Q3. rewrite (expected_falsy_node _ _ _ TI).
+            cbn [res_map]. rewrite E3. cbn [bind]. rewrite Bo. cbn [bind]. eexists. split; [reflexivity|]. cbn [concat].
+            rewrite app_assoc. apply words_rel_app; [exact Q3|exact Qo].
+        + destruct (ist || opt_layout_truthy ilay) eqn:B.
+          * assert (R2 : res_map (read_item regs [Some rp; Some rd] rlay)
+                           (XSpan (if opt_layout_truthy ilay then Some (region_lookup m ilay) else None) (map item_x ibody) :: map item_x post)
+                         = Ok (w2 :: map (item_words rlay) post)).
+            { cbn [res_map]. rewrite E2. cbn [bind]. rewrite Bo. reflexivity. }
+            rewrite (res_map_app _ _ _ _ _ Bp R2). eexists. split; [reflexivity|]. rewrite concat_app. cbn [concat].
+            apply words_rel_app; [exact Qp|]. apply words_rel_app; [exact Q2|exact Qo].
+          * apply orb_false_iff in B. destruct B as [-> TI]. rewrite (expected_falsy_node _ _ _ TI).
+            rewrite (res_map_app _ _ _ _ _ Bp (res_map_app _ _ _ _ _ Bi Bo)). eexists. split; [reflexivity|].
+            rewrite !concat_app. apply words_rel_app; [exact Qp|]. apply words_rel_app; [exact Qi|exact Qo]. }
     - cbn [seg_items seg_expected res_map]. destruct i; cbn [item_x read_item bind res_map concat item_words app].
       + eexists. split; [reflexivity|]. constructor; [split; [reflexivity|exact Hq]|constructor].
       + eexists. split; [reflexivity|]. constructor.
-    - specialize (Hs _ _ _ eq_refl). cbn [seg_items seg_expected].
+    - assert (Hs' : In lay ls) by (apply Hs; left; reflexivity). clear Hs. rename Hs' into Hs. cbn [seg_items seg_expected].
       destruct (opt_layout_truthy lay) eqn:T.
       + (* the span carries its own region *)
         rewrite orb_true_r. cbn [res_map]. rewrite read_item_span_unfold, determine_own.
@@ -333,24 +469,20 @@ Section OneDocument.
   Qed.
 
   Lemma read_segs : forall lang cap rp rd rlay segs,
-    In lang ls -> In cap ls -> (forall s st lay body, In s segs -> s = GSpan st lay body -> In lay ls) ->
+    In lang ls -> In cap ls -> (forall s l, In s segs -> In l (seg_layouts s) -> In l ls) -> Forall seg_harmless segs ->
     rp = region_lookup m (dfxp_choice None lang cap None) ->
     resolve regs (Some rp) = Ok rlay -> layout_equiv rlay (expected_effective lang cap None) ->
     exists ws, res_map (read_item regs [Some rp; Some rd] rlay) (flat_map (seg_items (region_lookup m)) segs) = Ok ws
                /\ words_rel (concat ws) (flat_map (seg_expected lang cap) segs).
   Proof.
-    intros lang cap rp rd rlay segs Hl Hc Hs Erp Hr Hq. induction segs as [|s segs IH].
+    intros lang cap rp rd rlay segs Hl Hc Hs Hh Erp Hr Hq. induction segs as [|s segs IH].
     - exists []. split; [reflexivity|constructor].
-    - cbn [flat_map].
-      destruct (read_seg lang cap rp rd rlay s Hl Hc (fun st lay body E => Hs s st lay body (or_introl eq_refl) E) Erp Hr Hq)
+    - cbn [flat_map]. pose proof (Forall_inv Hh) as Hh1. pose proof (Forall_inv_tail Hh) as Hh2.
+      destruct (read_seg lang cap rp rd rlay s Hl Hc (fun l E => Hs s l (or_introl eq_refl) E) Hh1 Erp Hr Hq)
         as (w1 & E1 & Q1).
-      destruct IH as (w2 & E2 & Q2). { intros s0 st lay body Hi E. eapply Hs; [right; exact Hi|exact E]. }
+      destruct IH as (w2 & E2 & Q2). { intros s0 l Hi E. eapply Hs; [right; exact Hi|exact E]. } { exact Hh2. }
       exists (w1 ++ w2). split.
-      + clear - E1 E2. revert w1 E1. generalize (seg_items (region_lookup m) s). induction l as [|x t IHt]; intros w1 E1.
-        * cbn [res_map] in E1. inversion E1; subst. exact E2.
-        * cbn [app res_map] in *. destruct (read_item regs [Some rp; Some rd] rlay x) as [a|]; [|discriminate]. cbn [bind] in *.
-          destruct (res_map (read_item regs [Some rp; Some rd] rlay) t) as [b|] eqn:Eb; [|discriminate]. cbn [bind] in E1.
-          inversion E1; subst. rewrite (IHt b eq_refl). reflexivity.
+      + exact (res_map_app _ _ _ _ _ E1 E2).
       + rewrite concat_app. apply words_rel_app; assumption.
   Qed.
 End OneDocument.
@@ -386,21 +518,33 @@ Proof.
   right. apply in_flat_map. exists (to_dcap gc). split; [cbn [to_dlang dl_caps]; apply in_map; exact Hc|]. left. reflexivity.
 Qed.
 
-Lemma in_set_span : forall langs gl gc st lay body, In gl langs -> In gc (gl_caps gl) -> In (GSpan st lay body) (gc_segs gc) ->
-  In lay (set_layouts (map to_dlang langs)).
+Lemma in_set_span : forall langs gl gc s l, In gl langs -> In gc (gl_caps gl) -> In s (gc_segs gc) -> In l (seg_layouts s) ->
+  In l (set_layouts (map to_dlang langs)).
 Proof.
-  intros langs gl gc st lay body H Hc Hs. unfold set_layouts. apply in_flat_map. exists (to_dlang gl). split; [apply in_map; exact H|].
+  intros langs gl gc s l H Hc Hs Hl. unfold set_layouts. apply in_flat_map. exists (to_dlang gl). split; [apply in_map; exact H|].
   right. apply in_flat_map. exists (to_dcap gc). split; [cbn [to_dlang dl_caps]; apply in_map; exact Hc|]. right.
-  cbn [to_dcap dc_nodes]. apply in_map_iff. exists (mkD 2 true st lay 0). split; [reflexivity|].
-  apply in_flat_map. exists (GSpan st lay body). split; [exact Hs|]. left. reflexivity.
+  cbn [to_dcap dc_nodes]. apply in_map_iff.
+  destruct s as [i|st lay body|st lay pre ist ilay ibody post]; cbn [seg_layouts] in Hl.
+  - destruct Hl.
+  - destruct Hl as [<-|[]]. exists (mkD 2 true st lay 0). split; [reflexivity|].
+    apply in_flat_map. exists (GSpan st lay body). split; [exact Hs|]. left. reflexivity.
+  - destruct Hl as [<-|[<-|[]]].
+    + exists (mkD 2 true st lay 0). split; [reflexivity|].
+      apply in_flat_map. exists (GNest st lay pre ist ilay ibody post). split; [exact Hs|]. left. reflexivity.
+    + exists (mkD 2 true ist ilay 0). split; [reflexivity|].
+      apply in_flat_map. exists (GNest st lay pre ist ilay ibody post). split; [exact Hs|]. cbn [seg_nodes]. right.
+      apply in_or_app. right. left. reflexivity.
 Qed.
 
 (* DFXP write then read: the language-level layout, every caption's layout and every word's layout are the expected
    effective layouts (node > caption > language, two-decimal values, defaults start / after) *)
+Definition lang_harmless (gl : glang) : Prop := Forall (fun gc => Forall seg_harmless (gc_segs gc)) (gl_caps gl).
+
 Theorem dfxp_layout_roundtrip : forall langs, Forall opt_nonneg (set_layouts (map to_dlang langs)) ->
+  Forall lang_harmless langs ->
   exists obs, dfxp_roundtrip None (map to_dlang langs) = Ok obs /\ Forall2 lang_rel obs langs.
 Proof.
-  intros langs NN. unfold dfxp_roundtrip, write_doc, read_doc. cbn [x_regions x_divs].
+  intros langs NN HH. unfold dfxp_roundtrip, write_doc, read_doc. cbn [x_regions x_divs].
   set (ls := set_layouts (map to_dlang langs)) in *. set (m := region_map ls).
   set (regs := map (fun kv : layout * region_id => (snd kv, layout_attrs (fst kv))) m).
   rewrite map_map. apply res_map_map_F2. intros gl Hgl.
@@ -419,7 +563,8 @@ Proof.
     pose proof (write_segs (region_lookup m) (gc_segs gc) []) as W. cbn [rev app] in W. rewrite W.
     destruct (read_segs ls NN (gl_layout gl) (gc_layout gc) (region_lookup m (dfxp_choice None (gl_layout gl) (gc_layout gc) None))
                         rd rlay (gc_segs gc) Hl Hc) as (ws & Ews & Qws).
-    - intros s st lay body Hs E. subst s. pose proof (in_set_span langs gl gc st lay body Hgl Hgc Hs) as K. exact K.
+    - intros s l Hs E. exact (in_set_span langs gl gc s l Hgl Hgc Hs E).
+    - rewrite Forall_forall in HH. specialize (HH gl Hgl). unfold lang_harmless in HH. rewrite Forall_forall in HH. exact (HH gc Hgc).
     - reflexivity.
     - exact Er.
     - exact Qr.
